@@ -1,8 +1,177 @@
 import JrsVerif.Common.J
+import JrsVerif.Model.Stack
+import JrsVerif.Model.Total
+import JrsVerif.Generated.Consts
 
 namespace JrsVerif.Drv.C04
 open Lean JrsVerif.J
 
-def handle (_op : String) (_j : Json) : Option Json := none
+/-! ### stack.run -/
+open JrsVerif.Stack in
+partial def parseProg (j : Json) : Option Prog := do
+  let k ← str? j "k"
+  match k with
+  | "skip" => some .skip
+  | "fail" => some .fail
+  | "seq" => some (.seq (← parseProg (← val? j "a")) (← parseProg (← val? j "b")))
+  | "frame" => some (.frame (← parseProg (← val? j "b")))
+  | "limit" => some (.limit (← nat? j "d") (← parseProg (← val? j "b")))
+  | "catch" => some (.catch (← parseProg (← val? j "b")))
+  | "set" => some (.setLimit (← nat? j "d"))
+  | _ => none
+
+open JrsVerif.Stack in
+def showOut : Out → String
+  | .ok => "ok" | .errStack => "stack" | .errOther => "other"
+
+open JrsVerif.Stack in
+def stJson (s : St) : Json := ofNats [s.cur, s.max]
+
+open JrsVerif.Stack in
+def stackRun (j : Json) : Json :=
+  match (do let p ← parseProg (← val? j "prog"); let m ← nat? j "max"; pure (p, m)) with
+  | none => bad "stack.run: parse"
+  | some (p, m) =>
+    let s : St := ⟨m, 0⟩
+    let model := match run s p with
+      | none => obj [("r", .str "panic")]
+      | some r => obj [("r", .str (showOut r.out)), ("start", stJson s), ("end", stJson r.st),
+                       ("log", .arr (r.log.map stJson).toArray)]
+    if noSet p && decide (s.cur + depth p + maxLimit p < USIZE) then
+      let e := Spec.eval s.max s.cur p
+      obj [("model", model),
+           ("spec", obj [("r", .str (showOut e.1)), ("start", stJson s), ("end", stJson s),
+                         ("log", .arr (e.2.map stJson).toArray)])]
+    else obj [("model", model)]
+
+/-! ### bind.prepare -/
+open JrsVerif.Total in
+def parseParams (a : Array Json) : List Param :=
+  a.toList.map (fun p => ⟨(str? p "n"), (bool? p "d").getD false⟩)
+
+open JrsVerif.Total in
+/-- where parameter `i` gets its value from, read off a successful `PreparedCall` -/
+def srcOf (unnamed : Nat) (named : List (Nat × Nat)) (defaults : List Nat) (i : Nat) : String :=
+  if i < unnamed then s!"p{i}" else
+  match named.find? (fun p => p.1 == i) with
+  | some (_, j) => s!"n{j}"
+  | none => if defaults.contains i then "d" else "?"
+
+open JrsVerif.Total in
+/-- the language rule, parameter by parameter -/
+def specBind (ps : List Param) (unnamed : Nat) (named : List String) : Option (List String) :=
+  if unnamed > ps.length then none else
+  -- every named argument names a parameter that is not positional and not named twice
+  let okNamed := (List.range named.length).all (fun j =>
+    match named[j]? with
+    | none => false
+    | some n =>
+      match position ps n with
+      | none => false
+      | some i => decide (unnamed ≤ i) && !((named.take j).contains n))
+  if !okNamed then none else
+  let srcs := (List.range ps.length).map (fun i =>
+    if i < unnamed then some s!"p{i}" else
+    match ps[i]? with
+    | none => none
+    | some p =>
+      match p.name.bind (fun n => named.findIdx? (· == n)) with
+      | some j => some s!"n{j}"
+      | none => if p.dflt then some "d" else none)
+  if srcs.all Option.isSome then some (srcs.filterMap id) else none
+
+open JrsVerif.Total in
+def bindPrepare (j : Json) : Json :=
+  match (do let ps ← arr? j "params"; let u ← nat? j "unnamed"; let nm ← arr? j "named"
+            pure (parseParams ps, u, strs nm)) with
+  | none => bad "bind.prepare: parse"
+  | some (ps, u, nm) =>
+    let model := match prepareCall ps u nm with
+      | .ok named defaults =>
+        obj [("r", .str "ok"), ("src", ofStrs ((List.range ps.length).map (srcOf u named defaults)))]
+      | .err _ => obj [("r", .str "arity")]
+      | .panic _ => obj [("r", .str "panic")]
+    let names := ps.filterMap (·.name)
+    if names.eraseDups.length != names.length then
+      -- duplicate parameter names: not a function the language admits; only "no panic" is asked
+      match str? j "impl_r" with
+      | some r => obj [("observed", .bool (r != "panic")), ("_model", model)]
+      | none => bad "bind.prepare: impl_r missing"
+    else
+      let spec := match specBind ps u nm with
+        | some srcs => obj [("r", .str "ok"), ("src", ofStrs srcs)]
+        | none => obj [("r", .str "arity")]
+      obj [("model", model), ("spec", spec)]
+
+/-! ### num.clamp, str.truncate -/
+open JrsVerif.Total in
+def numClamp (j : Json) : Json :=
+  match (do pure ((← int? j "x"), (← int? j "lo"), (← int? j "hi"))) with
+  | none => bad "num.clamp: parse"
+  | some (x, lo, hi) =>
+    let m := match clamp x lo hi with
+      | some v => obj [("v", toJson v)]
+      | none => obj [("panic", .bool true)]
+    obj [("model", m), ("spec", obj [("v", toJson (Spec.clamp x lo hi))])]
+
+open JrsVerif.Total in
+def strTruncate (j : Json) : Json :=
+  match (do pure (nats (← arr? j "cs"), (← nat? j "t"))) with
+  | none => bad "str.truncate: parse"
+  | some (cs, _) =>
+    -- the byte limit is the one extracted from the code, not the one the harness believes in
+    let t := JrsVerif.Generated.DEBUG_TRUNCATE_STRINGS
+    let m := match truncateDebug cs t with
+      | some v => obj [("cs", ofNats v)]
+      | none => obj [("panic", .bool true)]
+    obj [("model", m), ("spec", obj [("cs", ofNats (Spec.truncate cs t))])]
+
+/-! ### total.observe: the executable statement "a value or an error, counter back at 0, the
+    thread still evaluates" on what a worker reported -/
+def observe (j : Json) : Json :=
+  match val? j "impl" with
+  | none => bad "total.observe: impl missing"
+  | some imp =>
+    let outcome := (str? imp "outcome").getD "?"
+    let strict := (bool? j "strict").getD false
+    if (outcome == "timeout" || outcome == "oom") && !strict then
+      obj [("skip", .bool true), ("_why", .str outcome)]
+    else
+      let expect := match arr? j "expect" with
+        | some a => strs a
+        | none => ["ok", "err"]
+      let cls := (str? imp "class").getD ""
+      let tag := if outcome == "err" then s!"err:{cls}" else outcome
+      let allowed := expect.contains outcome || expect.contains tag
+      let settled := (nat? imp "depth") == some 0 && (bool? imp "canary") == some true
+      obj [("observed", .bool (allowed && settled))]
+
+/-- `total.sweep`: outcomes of recursion depth 0,1,2,… under frame limit `limit`:
+    a run of "ok" followed by a run of "stack"; the first failure lies in [lo, hi] -/
+def sweep (j : Json) : Json :=
+  let o := ((val? j "impl").bind (fun i => str? i "outcome")).getD ""
+  if o == "timeout" || o == "oom" then obj [("skip", .bool true), ("_why", .str s!"sweep {o}")] else
+  if o == "crash" then obj [("observed", .bool false)] else
+  match (do let imp ← val? j "impl"; pure (strs (← arr? imp "outcomes"), (← nat? j "lo"), (← nat? j "hi"),
+                                          (nat? imp "depth"), (bool? imp "canary"))) with
+  | none => bad "total.sweep: parse"
+  | some (outs, lo, hi, depth, canary) =>
+    let oks := outs.takeWhile (· == "ok")
+    let rest := outs.drop oks.length
+    let shape := rest.all (· == "err:stack")
+    let first := oks.length
+    obj [("observed", .bool (shape && decide (lo ≤ first) && decide (first ≤ hi) && !rest.isEmpty
+                             && depth == some 0 && canary == some true)),
+         ("_first", toJson first)]
+
+def handle (op : String) (j : Json) : Option Json :=
+  match op with
+  | "stack.run" => some (stackRun j)
+  | "bind.prepare" => some (bindPrepare j)
+  | "num.clamp" => some (numClamp j)
+  | "str.truncate" => some (strTruncate j)
+  | "total.observe" => some (observe j)
+  | "total.sweep" => some (sweep j)
+  | _ => none
 
 end JrsVerif.Drv.C04
